@@ -26,6 +26,12 @@ theorem XM.startRow {te : TermEnc} {ss : Spec.State} (m : XM te ss) : XM te.star
    ⟨⟨m.p.em.size, m.p.em.len, m.p.em.la, m.p.em.res⟩, m.p.conv⟩,
    ⟨⟨m.d.em.size, m.d.em.len, m.d.em.la, m.d.em.res⟩, m.d.conv⟩⟩
 
+/-- `pinned` / `rowOpen` are invisible to the exact mirror. -/
+theorem XM.endRow {te : TermEnc} {ss : Spec.State} (m : XM te ss) : XM te.endRow ss :=
+  ⟨⟨⟨m.n.em.size, m.n.em.len, m.n.em.la, m.n.em.res⟩, m.n.conv⟩,
+   ⟨⟨m.p.em.size, m.p.em.len, m.p.em.la, m.p.em.res⟩, m.p.conv⟩,
+   ⟨⟨m.d.em.size, m.d.em.len, m.d.em.la, m.d.em.res⟩, m.d.conv⟩⟩
+
 theorem run_final_unique {ss s1 s2 : Spec.State} {rows : List Row}
     (h1 : ∀ rest acc i, Spec.run ss (rows ++ rest) acc i = Spec.run s1 rest acc (i + rows.length))
     (h2 : ∀ rest acc i, Spec.run ss (rows ++ rest) acc i = Spec.run s2 rest acc (i + rows.length)) :
@@ -124,15 +130,15 @@ theorem triple_audit {P : Preset} {T : Keys} (hf : TFits P T) {es : EncState} {s
       simp only [Spec.step, hoE, h1b, h3b, if_true, hgE, hres, bind, Except.bind, pure, Except.pure]
       simp
   obtain ⟨ev, hstep⟩ := hstep
-  refine ⟨{ te := te3, rep := { es.rep with s := some s, p := some p, o := some ob } },
+  refine ⟨{ te := te3.endRow, rep := { es.rep with s := some s, p := some p, o := some ob } },
     r1 ++ r2 ++ r3 ++ [Row.triple ws wp wo],
     setLR { ssA with rep := { ssA.rep with s := some s.norm, p := some p.norm, o := some ob.norm } } te3,
     ?_, ⟨?_, ?_, ?_⟩, hoE, fE.graph, ?_⟩
-  · simp only [encodeTriple, e1, e2, e3]
-  · exact ⟨sim.inv.wft, mE.setLR_rep te3 _, rfl, rfl, rfl, rfl, rfl, rfl, by
+  · simp only [encodeTriple_eq inv.nb, encodeTripleBody, e1, e2, e3]
+  · exact ⟨sim.inv.wft.endRow, (mE.setLR_rep te3 _).endRow, rfl, rfl, rfl, rfl, rfl, rfl, by
       show ssA.rep.g = es.rep.g.map Term.norm
-      rw [fE.rep]; exact inv.rg⟩
-  · exact xA.setLR_rep te3 _
+      rw [fE.rep]; exact inv.rg, rfl⟩
+  · exact (xA.setLR_rep te3 _).endRow
   · exact ⟨by show some s.norm = some s; rw [ns], by show some p.norm = some p; rw [np],
       by show some ob.norm = some ob; rw [no], ia.rn.2.2.2⟩
   · intro lc a rest
@@ -201,14 +207,15 @@ theorem quad_audit {P : Preset} {T : Keys} (hf : TFits P T) {es : EncState} {ss 
     simp only [hoE] at hres4'
     simp only [Spec.step, hoE, h2b, if_true, hres, hres4', bind, Except.bind, pure, Except.pure]
     rfl
-  refine ⟨{ te := te4, rep := { s := some s, p := some p, o := some ob, g := some g } },
+  refine ⟨{ te := te4.endRow, rep := { s := some s, p := some p, o := some ob, g := some g } },
     r1 ++ r2 ++ r3 ++ r4 ++ [Row.quad ws wp wo wg],
     { (setLR { ssA with rep := { ssA.rep with s := some s.norm, p := some p.norm, o := some ob.norm } } te4)
         with rep := { s := some s.norm, p := some p.norm, o := some ob.norm, g := some g.norm } },
     ?_, ⟨?_, ?_, ?_⟩, hoE, fE.graph, ?_⟩
-  · simp only [encodeQuad, e1, e2, e3, e4]
-  · exact ⟨sim.inv.wft, mE.congr ⟨rfl, rfl, rfl⟩ ⟨rfl, rfl, rfl⟩ ⟨rfl, rfl, rfl⟩, rfl, rfl, rfl, rfl, rfl, rfl, rfl⟩
-  · exact ⟨xA.n.lr _, xA.p.lr _, xA.d.lr _⟩
+  · simp only [encodeQuad_eq inv.nb, encodeQuadBody, e1, e2, e3, e4]
+  · exact ⟨sim.inv.wft.endRow, EM.endRow (te := te4) (mE.congr ⟨rfl, rfl, rfl⟩ ⟨rfl, rfl, rfl⟩ ⟨rfl, rfl, rfl⟩),
+      rfl, rfl, rfl, rfl, rfl, rfl, rfl, rfl⟩
+  · exact XM.endRow (te := te4) ⟨xA.n.lr _, xA.p.lr _, xA.d.lr _⟩
   · exact ⟨by show some s.norm = some s; rw [ns], by show some p.norm = some p; rw [np],
       by show some ob.norm = some ob; rw [no], by show some g.norm = some g; rw [ng]⟩
   · intro lc a rest
@@ -231,7 +238,7 @@ theorem quad_audit {P : Preset} {T : Keys} (hf : TFits P T) {es : EncState} {ss 
 theorem graphStart_audit {P : Preset} {T : Keys} (hf : TFits P T) {es : EncState} {ss : Spec.State}
     (ia : InvA P es ss) {o : Options} (hopt : ss.opts = some o) (h3 : o.physicalType = 3)
     (g : Term) (hg : g.WFGraph = true) (kg : (termKeys (P.maxPrefixes != 0) g).sub T) :
-    ∃ te' rows w ss', es.te.startRow.graph g = (te', .ok (rows, w)) ∧ InvA P { es with te := te' } ss' ∧
+    ∃ te' rows w ss', es.te.startRow.graph g = (te', .ok (rows, w)) ∧ InvA P { es with te := te'.endRow } ss' ∧
       ss'.opts = some o ∧ ss'.graph = some g.norm ∧
       ∀ lc a rest, lc ≠ some g.norm →
         Spec.runAudit ss lc a (rows ++ [Row.graphStart (some w)] ++ rest) = Spec.runAudit ss' none a rest := by
@@ -254,12 +261,13 @@ theorem graphStart_audit {P : Preset} {T : Keys} (hf : TFits P T) {es : EncState
       = .ok ({ (setLR ssA te') with graph := some g.norm }, none) := by
     simp only [Spec.step, hoE, h3b, if_true, hres, bind, Except.bind, pure, Except.pure]
   refine ⟨te', rows, w, { (setLR ssA te') with graph := some g.norm }, heq, ⟨?_, ?_, ia.rn⟩, hoE, rfl, ?_⟩
-  · exact ⟨sim.inv.wft, mE.congr ⟨rfl, rfl, rfl⟩ ⟨rfl, rfl, rfl⟩ ⟨rfl, rfl, rfl⟩, rfl, rfl, rfl,
+  · exact ⟨sim.inv.wft.endRow, EM.endRow (te := te') (mE.congr ⟨rfl, rfl, rfl⟩ ⟨rfl, rfl, rfl⟩ ⟨rfl, rfl, rfl⟩),
+      rfl, rfl, rfl,
       by show ssA.rep.s = _; rw [fE.rep]; exact inv.rs,
       by show ssA.rep.p = _; rw [fE.rep]; exact inv.rp,
       by show ssA.rep.o = _; rw [fE.rep]; exact inv.ro,
-      by show ssA.rep.g = _; rw [fE.rep]; exact inv.rg⟩
-  · exact ⟨xA.n.lr _, xA.p.lr _, xA.d.lr _⟩
+      by show ssA.rep.g = _; rw [fE.rep]; exact inv.rg, rfl⟩
+  · exact XM.endRow (te := te') ⟨xA.n.lr _, xA.p.lr _, xA.d.lr _⟩
   · intro lc a rest hlc
     have hz := slotsZero1 (st := ssA) (fE.lrn.trans inv.lrn) (fE.lrp.trans inv.lrp) g1.zero
     have hne : (some g.norm == lc) = false := by
